@@ -83,6 +83,8 @@ func SchCorpus() []SchCorpusCase {
 	add(i8(), 't', M(E("v", Int(100))), "int8-bound field in range")
 	add(SchStruct('m', SchF("a", SchScalar('A'))), 't', M(E("a", List(Null(), M(E("k", Int(1)))))), "any with nested null")
 
+	add(SchUnion('k', SchM("a", 'm', SchScalar('A')), SchM("l", 'm', SchScalar('K'))), 't', M(E("", Str("x"))), "union with an Any member")
+
 	// representation-level trees: conforming and witnesses
 	conf = false
 	add(sm(), 'r', M(E("x", Int(1)), E("c", Int(1))), "map repr ok")
@@ -125,7 +127,6 @@ func SchCorpus() []SchCorpusCase {
 	add(sp1(), 'r', Str("axyz"), "stringprefix with one-character prefixes")
 	add(sp1(), 'r', Str("a"), "stringprefix with one-character prefix and empty rest")
 	add(sp(), 'r', Str("s-abc"), "stringprefix ok")
-	add(SchUnion('k', SchM("a", 'm', SchScalar('A')), SchM("l", 'm', SchScalar('K'))), 't', M(E("", Str("x"))), "union with an Any member")
 	return out
 }
 
